@@ -121,6 +121,13 @@ fn cli_eval(irr: &SharedIrr, expr: &str) -> Result<Result<Vec<String>, String>, 
 
 fn run_c11(ctx: &mut Ctx) -> Verdict {
     crate::ssim::quiet_panics();
+    // the agent half of the property ("the route-filters the agent installs are that set, split by
+    // family"): one run in 40 is a history of real agent runs against FakeJunos + FakeIrrd (the C01
+    // scenario and oracle), so that a change between evaluation and router is seen here too
+    if ctx.tape.weighted(&[39, 1]) == 1 {
+        ctx.count("runs.agent_history");
+        return super::agent::history(ctx, super::agent::Focus::C01);
+    }
     let cfg = db_cfg(ctx);
     let mut db = gen_db(ctx, &cfg);
     if cfg.max_as > 1000 {
@@ -402,12 +409,12 @@ pub static C11: PropSpec = PropSpec {
     runs: |t| if t == Tier::Thorough { 4_000_000 } else { 30_000 },
     enumerated: |_| 0,
     run: run_c11,
-    rule: "generated IRR database (nested and cyclic as-sets, hierarchical names, unknown nested sets, ASes with only IPv4 / only IPv6 / no routes, duplicate prefixes, nested route-sets, filter-sets referring to other names; thorough: an as-set with up to 2600 members, crossing irrc's 1000-in-flight window) and an mp-filter expression over its names (AND/OR/NOT, parentheses, literal prefix sets, all range operators, occasionally unknown names); responses are cut by seeded read sizes (1-7 bytes / mixed / whole) and writes may be partial. One run in six evaluates another (possibly unevaluable) expression on the same evaluator first. One run in 16 evaluates through the `bgpfu` executable (child process, loopback TCP to FakeIrrd) and compares its printed ranges. Oracle: ranges equal the reference evaluation (rpsl's evaluator over a resolver that reads the database directly). Non-trivial = the reference set is non-empty; distinct = distinct event-log hash",
+    rule: "generated IRR database (nested and cyclic as-sets, hierarchical names, unknown nested sets, ASes with only IPv4 / only IPv6 / no routes, duplicate prefixes, nested route-sets, filter-sets referring to other names; thorough: an as-set with up to 2600 members, crossing irrc's 1000-in-flight window) and an mp-filter expression over its names (AND/OR/NOT, parentheses, literal prefix sets, all range operators, occasionally unknown names); responses are cut by seeded read sizes (1-7 bytes / mixed / whole) and writes may be partial. One run in 40 is a C01-style history of real agent runs (router state == reference set split by family). One run in six evaluates another (possibly unevaluable) expression on the same evaluator first. One run in 16 evaluates through the `bgpfu` executable (child process, loopback TCP to FakeIrrd) and compares its printed ranges. Oracle: ranges equal the reference evaluation (rpsl's evaluator over a resolver that reads the database directly). Non-trivial = the reference set is non-empty; distinct = distinct event-log hash",
     components: COMPONENTS_C11,
     assumptions: &[
         "rpsl expression semantics and generic-ip set algebra are trusted (used on both sides)",
         "as defined by bgpfu-lib, an unknown route-set or filter-set denotes the empty set, an unknown as-set makes the evaluation fail",
-        "the agent half (installed filters equal the same set split by family) is checked by C01",
+        "the agent half (installed filters equal the same set split by family) is checked by C01 and, through the same scenario and oracle, by one C11 run in 40",
         "the bgpfu child process runs on the real clock and with its own hash seeds; only its output and the sorted list of its queries enter the event log, and a process still running after 15 s is reported as cli-stuck",
     ],
     watchdog_s: 60,
